@@ -429,6 +429,22 @@ def run_case(job):
         except BaseException as e:  # noqa
             exc = e
         rerun_bad = exc is not None or diff is not None
+        # RERUN after a partial run that asked for processed outputs (every 4th case) -------------
+        if cfg.get("idx", 0) % 4 == 0:
+            exc_p, diff_p = None, None
+            try:
+                m.run_model(num_steps=5, process_outputs=True)
+                m.run_model(till_termination=True)
+                diff_p = compare(r1, result(m))
+            except BaseException as e:  # noqa
+                exc_p = e
+            if exc_p is not None or diff_p is not None:
+                out["failures"].append({
+                    "signature": "RERUN-after-partial-run-with-processed-outputs|%s" % (("raises-" + type(exc_p).__name__) if exc_p is not None else "differs"),
+                    "clause": "re-running the same model object reproduces the first run's results exactly and does not raise",
+                    "detail": ("run_model(num_steps=5, process_outputs=True) then run_model(till_termination=True) on the same model: %s ; case %s"
+                               % (("raised %s: %s" % (type(exc_p).__name__, str(exc_p)[:120])) if exc_p is not None else "differs: " + str(diff_p), s)),
+                    "repro": json.dumps(dict(repro_base, then="m.run_model(num_steps=5, process_outputs=True); m.run_model(till_termination=True)"))})
         # NEWMODEL ---------------------------------------------------------------------
         exc2, diff2 = None, None
         try:
@@ -568,6 +584,12 @@ def main():
                         cross = cross_kinds if r < 1 else [cross_kinds[(n + j) % len(cross_kinds)] for j in range(3)]
                     jobs.append({"cfg": cfg, "cross": cross, "sanity": not quick})
                     n += 1
+        # fixed configuration (independent of the seed): bunds that overtop under monsoon rain on a slowly draining soil - the configured
+        # bund height decides runoff, so a field-management object changed by a run shows in the re-run / the next model
+        jobs.append({"cfg": {"crop": "PaddyRice", "plant": "06/01", "wx": "hyderabad", "kind": "cd", "start": "2001/06/01", "end": "2002/05/31",
+                             "soil": "Paddy", "iwc": None, "irr": irr_cfg("0", 2001, "06/01"),
+                             "field": {"bunds": True, "z_bund": 0.05, "bund_water": 10}, "co2": None},
+                     "cross": ["field"], "sanity": not quick})
         with mp.Pool(16, maxtasksperchild=8) as pool:
             outs = pool.map(run_case, jobs, chunksize=1)
         attr_count = {}
